@@ -127,18 +127,17 @@ Proof.
     destruct (armed s) as [[k due]|] eqn:A; [|discriminate].
     destruct (due <=? now s) eqn:D; [|discriminate]. inversion H as [H']. clear H.
     destruct (auth s) eqn:Au.
-    + destruct (Ia eq_refl) as [Ap Jx]. rewrite A in Ap.
+    + destruct (Ia eq_refl) as [Ap Jx]. try rewrite A in Ap.
       destruct k; cbn [run_op] in H'.
       * exfalso. apply (pick_not_stale s due). symmetry; assumption.
       * (* presence *)
         cbn [unusable upd_armed] in H'.
         destruct (unusable s). { use_fst H'. apply close_inv. }
+        unfold schedule in H'. cbn [closed set_times upd_armed] in H'. rewrite C in H'.
         apply tick_subs_keeps in H'. destruct H' as [Hc|Hk]; [apply inv_closed; assumption|].
-        destruct Hk as [K1 [K2 [K3 [K4 [K5 [K6 [K7 [K8 K9]]]]]]]].
-        intro C'. split; intro Ax; [cbn in K2; congruence|].
-        unfold schedule in *. cbn [closed set_times upd_armed] in *. rewrite C in *.
-        cbn in *. split.
-        -- rewrite K3. unfold pick. cbn. rewrite K4, K5, K6, K7. reflexivity.
+        cbn in Hk. destruct Hk as [K1 [K2 [K3 [K4 [K5 [K6 [K7 [K8 K9]]]]]]]].
+        intro C'. split; intro Ax; [congruence|]. split.
+        -- rewrite K3. unfold pick. rewrite K4, K5, K6, K7. reflexivity.
         -- unfold J in *. rewrite K4, K8. exact Jx.
       * (* expire *)
         symmetry in Ap. destruct (pick_expire _ _ Ap) as [Ed Epos].
@@ -175,7 +174,7 @@ Proof.
         inversion H'; subst. intro C'. split; intro Ax; [cbn in Ax; congruence|].
         unfold schedule. cbn. rewrite C. cbn. split; [reflexivity|]. exact Jx.
     + (* not authenticated: only the stale timer can be armed *)
-      destruct (Iu eq_refl) as [_ [_ [_ [_ Ast]]]]. rewrite A in Ast.
+      destruct (Iu eq_refl) as [_ [_ [_ [_ Ast]]]]. try rewrite A in Ast.
       destruct k; try contradiction. cbn [run_op auth upd_armed] in H'. rewrite Au in H'. cbn in H'.
       use_fst H'. apply close_inv.
   - (* connect *)
